@@ -167,6 +167,61 @@ def run(ctx):
                 if snap(G) != before:
                     ctx.violation("%s modified the caller's graph" % sim, dict(rep, call=i, diff=first_diff(before, snap(G))))
                     break
+    # --- initial-condition containers of the SIR/SIS simulators: caller-owned mutable objects (list / set / array), also
+    # the legal-but-unusual ones (docstrings: "no test for consistency"): a node listed twice, a node listed as both
+    # initially infected and initially recovered
+    import numpy as _np
+    for sim in allsims.SIMS:
+        if sim in ("Gillespie_simple_contagion", "Gillespie_complex_contagion"):
+            continue
+        for k in range(ctx.scale(36, 120)):
+            c = allsims.gen_case(ctx.rng, sim)
+            if c["n"] < 3:
+                continue
+            G, lab = sims.build_graph(c)
+            idx = gen.index_of(G)
+            nodes = list(range(c["n"]))
+            ii = ctx.rng.sample(nodes, ctx.rng.randint(1, min(3, c["n"] - 1)))
+            rest = [u for u in nodes if u not in ii]
+            recs = ctx.rng.sample(rest, ctx.rng.randint(0, min(2, len(rest)))) if sim in allsims.HAS_RECS else []
+            shape = ["plain", "dup", "overlap", "dup+overlap"][k % 4]
+            if "dup" in shape:
+                ii = ii + [ii[0]]
+            if "overlap" in shape and sim in allsims.HAS_RECS:
+                recs = recs + [ii[-1] if "dup" not in shape else ii[1 % len(ii)]]
+            ckind = ["list", "set", "array"][(k // 4) % 3]
+            labs = [lab(i) for i in ii]
+            if ckind == "set":
+                obj = set(labs)
+            elif ckind == "array" and all(isinstance(x, int) for x in labs):
+                obj = _np.array(labs)
+            else:
+                obj, ckind = list(labs), "list"
+            objs = dict(initial_infecteds=obj)
+            if sim in allsims.HAS_RECS and (recs or ctx.rng.random() < 0.3):
+                objs["initial_recovereds"] = [lab(i) for i in recs]
+            c = dict(c, init=dict(kind="none"), recs=[], _objs=objs)
+            rep = dict(entry=sim, stream="ic-containers", shape=shape, container=ckind, case=strip(c),
+                       initial_infecteds=[idx[x] for x in labs], initial_recovereds=recs)
+            ctx.case(rep, nontrivial=True)
+            ctx.count("ic-containers:%s:%s" % (shape, ckind))
+            before = snap((G, objs))
+            for i in (1, 2):
+                tr = rngmod.TapeRandom(rng=ctx.rng, idx=idx)
+                rules = allsims.Rules(c, lab, idx)
+                try:
+                    allsims.call_sim(c, G, lab, tr, c["full"], rules)
+                except Exception as e:
+                    if shape == "plain":
+                        ctx.violation("%s: call %d with caller-owned initial-condition containers raised %s" % (sim, i, type(e).__name__),
+                                      dict(rep, call=i, error=err_enum(e)))
+                    else:
+                        ctx.count("ic-containers:raised:" + type(e).__name__)   # inconsistent input: an exception is not judged here
+                    break
+                if snap((G, objs)) != before:
+                    ctx.violation("%s modified the caller's initial-condition containers (or graph): %s" % (sim, first_diff(before, snap((G, objs)))),
+                                  dict(rep, call=i))
+                    break
     # model-specification graphs and IC dict of the generic simulators
     import specs
     for _ in range(ctx.scale(10, 100)):
